@@ -210,9 +210,10 @@ def run(chk):
                 # every role at least once, then random
                 picked, roles = [], set()
                 for o in cands:
-                    if o.role not in roles:
+                    kind = o.role + ("/alias" if o.note == "alias_use" else "")     # uses of an import alias are a role of their own
+                    if kind not in roles:
                         picked.append(o)
-                        roles.add(o.role)
+                        roles.add(kind)
                 for o in cands:
                     if len(picked) >= per_program:
                         break
